@@ -162,7 +162,10 @@ def arcTo (d : D) (rx ry rot : Float) (large sweep : Bool) (x y : Float) : D :=
 
 def close (d : D) : D :=
   if d.size == 0 || last d == 32.0 then d
-  else if last d == 1.0 then d.extract 0 (d.size - 4)
+  else if last d == 1.0 then
+    -- remove MoveTo + Close of a subpath without segments, unless the previous subpath is still open
+    let n := d.size - 4
+    if n == 0 || at' d (n - 1) == 32.0 then d.extract 0 n else d
   else
     let en := startPos d
     if last d == 2.0 && equal (at' d (d.size - 3)) en.1 && equal (at' d (d.size - 2)) en.2 then
